@@ -106,6 +106,20 @@ struct Scenario {
     /// log the queue's own metrics (X04) after the handle drop
     #[serde(default)]
     self_metrics: bool,
+    /// BackgroundQueueBuilder::shutdown_timeout (ms); 0 = default (30 s)
+    #[serde(default)]
+    shutdown_timeout_ms: u64,
+    /// keep the stalled stream stalled while the handle is being dropped, for this long
+    #[serde(default)]
+    hold_stall_ms: u64,
+    /// C09 pair rounds: writer stalled, queue filled to capacity-1, then TWO producers append
+    /// one entry each at the same instant
+    #[serde(default)]
+    pair_rounds: u64,
+    /// C01: after the producers have finished, install a global tracing subscriber (once per
+    /// process!), wait for the rate limiter, then append `after_sub` more entries
+    #[serde(default)]
+    after_sub: u64,
 }
 
 #[derive(Clone)]
@@ -260,6 +274,58 @@ fn watched_drop(handle: metrique_writer::sink::BackgroundQueueJoinHandle, ctl: &
     }
 }
 
+/// C09 pair rounds: two producers race for the last free slot of a stalled queue.
+fn run_pair_rounds(sc: &Scenario, q: &Q, ctl: &StreamCtl) {
+    let cap = sc.cap as u64;
+    let mut next_id = 10000u64;
+    let mut handed = ctl.nexts();
+    let mut fno = 1000i64;
+    for round in 0..sc.pair_rounds {
+        next_id += 1;
+        let stall_id = next_id;
+        ctl.gate(stall_id);
+        timed_append(q, 1, stall_id);
+        handed += 1;
+        if !ctl.wait_nexts(handed, BUDGET) {
+            trace::evi("StallNotReached", &[("e", stall_id as i64)]);
+            ctl.open_all();
+            return;
+        }
+        for _ in 0..cap.saturating_sub(1) {
+            next_id += 1;
+            timed_append(q, 1, next_id);
+        }
+        // two producers, released together by a spin flag
+        let go = Arc::new(AtomicBool::new(false));
+        let mut hs = Vec::new();
+        for t in 0..2u64 {
+            let q = q.clone();
+            let go = go.clone();
+            let id = (2 + t) * 10000 + round + 1;
+            let spin = Duration::from_nanos(((round * 31 + t * 17 + sc.seed) % 3) * 150);
+            hs.push(std::thread::spawn(move || {
+                while !go.load(Ordering::Acquire) {
+                    std::hint::spin_loop();
+                }
+                let t0 = Instant::now();
+                while t0.elapsed() < spin {
+                    std::hint::spin_loop();
+                }
+                timed_append(&q, (2 + t) as i64, id);
+            }));
+        }
+        std::thread::sleep(Duration::from_micros(200));
+        go.store(true, Ordering::Release);
+        for h in hs {
+            let _ = h.join();
+        }
+        ctl.open_gate(stall_id);
+        fno += 1;
+        do_flush(q, fno);
+        handed = ctl.nexts();
+    }
+}
+
 /// C09 race rounds, single producer (the linearization is then unambiguous up to the one race).
 fn run_race_rounds(sc: &Scenario, q: &Q, ctl: &StreamCtl) {
     let cap = sc.cap as u64;
@@ -375,7 +441,11 @@ fn run_scenario(sc: &Scenario) {
     } else {
         ctrl.free_run();
     }
-    let mut builder = BackgroundQueueBuilder::new()
+    let mut builder = BackgroundQueueBuilder::new();
+    if sc.shutdown_timeout_ms > 0 {
+        builder = builder.shutdown_timeout(Duration::from_millis(sc.shutdown_timeout_ms));
+    }
+    let mut builder = builder
         .capacity(sc.cap)
         .flush_interval(Duration::from_micros(sc.flush_us))
         .thread_name(format!("vqw-{}", sc.id));
@@ -478,6 +548,9 @@ fn run_scenario(sc: &Scenario) {
     if sc.race_rounds > 0 {
         run_race_rounds(sc, &q, &ctl);
     }
+    if sc.pair_rounds > 0 {
+        run_pair_rounds(sc, &q, &ctl);
+    }
     if let Some(id) = stall_id {
         // wait until the writer is inside next(stall entry): k hand-offs have been entered
         let k = sc.stall.as_ref().unwrap().k;
@@ -499,8 +572,32 @@ fn run_scenario(sc: &Scenario) {
             ctl.open_all();
         }
     }
-    if stall_id.is_some() {
+    if stall_id.is_some() && sc.hold_stall_ms == 0 {
         ctl.open_all();
+    }
+    if sc.hold_stall_ms > 0 {
+        // the stream stays stalled while the handle is dropped (below); released by a timer
+        let ctl2 = ctl.clone();
+        let ms = sc.hold_stall_ms;
+        std::thread::spawn(move || {
+            std::thread::sleep(Duration::from_millis(ms));
+            ctl2.open_all();
+        });
+    }
+    if sc.after_sub > 0 {
+        // (once per process) from now on a tracing subscriber is installed: validation failures
+        // must go to tracing, not into the stream
+        do_flush(&q, 900);
+        tracing_subscriber::fmt()
+            .with_writer(std::io::sink)
+            .with_max_level(tracing::Level::ERROR)
+            .init();
+        trace::evi("SubInstalled", &[]);
+        std::thread::sleep(Duration::from_millis(1300)); // let the 1 s rate limiter reopen
+        for i in 1..=sc.after_sub {
+            timed_append(&q, 8, 80000 + i);
+        }
+        do_flush(&q, 901);
     }
     // flushers were started together with the producers; join everything
     for t in threads {
